@@ -26,8 +26,15 @@ struct Sched
   uint64_t max_steps    = 200000;
   bool round_robin      = false;
   bool stuck            = false;
-  int policy            = 0;  // 0 uniform random, 1 PCT
+  int policy            = 0;  // 0 uniform random, 1 PCT, 2 scripted (bounded-preemption enumeration)
+  // policy 2: run the current thread until it finishes or yields; switch only at the scripted (step, thread)
+  // preemption points, at voluntary yields (round-robin) and after 40 consecutive steps (a spinner)
+  std::vector<std::pair<uint64_t, int>> script;
+  std::vector<signed char> trace_running;   // thread that executed step s
+  std::vector<unsigned char> trace_live;    // bit mask of unfinished threads at step s
+  bool script_infeasible = false;
   int low_water         = 999;
+  int last_kind         = -1;
   uint32_t spurious_ppm = 0;
   uint64_t hash         = 1469598103934665603ull;
   uint64_t spurious_taken = 0, cas_fail_genuine = 0, switches = 0;
@@ -56,6 +63,11 @@ struct Sched
       change_at.push_back(rng.below(400));
     current   = -1;
     low_water = 999;
+    last_kind = -1;
+    trace_running.clear();
+    trace_live.clear();
+    script.clear();
+    script_infeasible = false;
   }
 
   int pick_locked(int me)
@@ -77,6 +89,38 @@ struct Sched
     }
     if (policy == 0)
       return live[rng.below(live.size())];
+    if (policy == 2)
+    {
+      auto next_rr = [&](int from) {
+        for (int k = 1; k <= nthreads; ++k)
+        {
+          int c = (from + k) % nthreads;
+          if (!finished[static_cast<size_t>(c)])
+            return c;
+        }
+        return from;
+      };
+      if (me < 0 || finished[static_cast<size_t>(me)])
+        return me < 0 ? live[0] : next_rr(me);
+      for (auto &pr : script)
+        if (pr.first == steps)
+        {
+          if (pr.second == me || finished[static_cast<size_t>(pr.second)])
+          {
+            script_infeasible = true;  // that thread cannot be chosen here
+            break;
+          }
+          return pr.second;
+        }
+      if (last_kind == 4 || last_kind == 5 || last_kind == 7)
+        return next_rr(me);  // voluntary yield / sleep / idle consumer: free switch
+      if (consecutive[static_cast<size_t>(me)] >= 40)
+      {
+        consecutive[static_cast<size_t>(me)] = 0;
+        return next_rr(me);  // a spinner: free switch
+      }
+      return me;
+    }
     // PCT: highest priority runs; at a change point the running thread drops to the bottom; a thread that
     // ran 64 consecutive steps is demoted too (it is most likely spinning)
     for (auto c : change_at)
@@ -121,6 +165,21 @@ struct Sched
     std::unique_lock<std::mutex> l(mu);
     ++steps;
     ++consecutive[static_cast<size_t>(id)];
+    last_kind = kind;
+    if (policy == 2)
+    {
+      unsigned char mask = 0;
+      for (int i = 0; i < nthreads && i < 8; ++i)
+        if (!finished[static_cast<size_t>(i)])
+          mask = static_cast<unsigned char>(mask | (1u << i));
+      if (trace_running.size() <= steps)
+      {
+        trace_running.resize(steps + 1, -1);
+        trace_live.resize(steps + 1, 0);
+      }
+      trace_running[steps] = static_cast<signed char>(id);
+      trace_live[steps]    = mask;
+    }
     if (steps > max_steps && !round_robin)
     {
       round_robin = true;  // continue under a fair schedule before declaring no progress
